@@ -210,11 +210,50 @@ def check(ctx):
             ctx.violation("parse_cutoffs", {"case": ["parse_cutoffs", s], "observed": str(got), "expected": str(exp)})
     for i in bad[:20]:
         ctx.violation("correspondence:qualtrim", {"case": list(cases[i]), "impl": impl_out[i], "model": model_out[i]}, found_input=False)
+    # system level: the reported number of quality-trimmed bases equals the bases actually removed
+    from .. import sysutil as S
+    rng = ctx.rng
+    nsys = 0
+    with S.Scratch() as d:
+        for _ in range(ctx.size(60, 600)):
+            c = S.Cfg()
+            r = rng.random()
+            if r < 0.7:
+                c.qcut = rng.choice(["10", "20", "15,10", "5,0", "0,12", "30"])
+            if r > 0.4:
+                c.nextseq = rng.choice([5, 10, 20, 30])
+            if rng.random() < 0.3:
+                c.cuts = (rng.choice([1, 3, -2]),)
+            reads = [S.make_read(rng, i, [], False) for i in range(rng.choice([1, 4, 10]))]
+            res = S.run_impl(c, reads, d)
+            nsys += 1
+            if res["exit"] != 0:
+                ctx.violation("system: implementation fails", {"argv": res["argv"][5:-1], "reads": [list(x) for x in reads], "exit": res["exit"]})
+                continue
+            ctx.count(("sys", json_key(c), tuple(reads)), True)
+            cut_only = S.run_impl(S.Cfg(cuts=c.cuts), reads, d)
+            before = sum(len(s) for _, s, _ in cut_only["files"].get(0, []))
+            after = sum(len(s) for _, s, _ in res["files"].get(0, []))
+            rep = res["report"]["basepair_counts"]["quality_trimmed"] or 0
+            if rep != before - after:
+                ctx.violation("system: reported quality-trimmed bases differ from the bases removed",
+                              {"case": ["system", res["argv"][5:-1]], "reads": [list(x) for x in reads], "observed": rep, "expected": before - after,
+                               "why": "report says %d bp quality-trimmed, %d were removed" % (rep, before - after)})
+    dist["system/quality_trimmed_count"] = nsys
     ctx.coverage["search_note"] = "the oracle (direct suffix-sum restatement of the BWA rule) was run on all %d cases of this run" % len(cases)
+
+
+def json_key(c):
+    import json
+
+    return json.dumps(c.to_json(), sort_keys=True)
 
 
 def replay(doc):
     c = doc["replay"]["case"]
+    if c[0] == "system":
+        print("system-level case; rerun: cutadapt", " ".join(c[1]), "on the reads in this file")
+        return 1
     if c[0] == "parse_cutoffs":
         from cutadapt.cli import parse_cutoffs
 
